@@ -59,7 +59,8 @@ def declared_bases(ops, upto, results):
             continue
         if op[0] == "new_space":
             path = op[2] if op[1] == "-" else op[1] + "." + op[2]
-            decl[path] = list(op[3])
+            # a base named twice in one declaration: the property does not say where it then stands
+            decl[path] = list(op[3]) if len(set(op[3])) == len(op[3]) else None
         elif op[0] == "add_bases":
             decl.setdefault(op[1], [])
             if decl[op[1]] is None:
@@ -191,7 +192,7 @@ def values_vs_rebuilt(live, ops, k, out, stats):
             break
 
 
-def run_history(ops, out, stats, check_values=True, rng=None, n_ops=0):
+def run_history(ops, out, stats, check_values=True, rng=None, n_ops=0, gen=None):
     """replays `ops`; when `rng` is given, generates `n_ops` further operations adaptively
     (appending them to `ops`)"""
     close_all()
@@ -200,7 +201,9 @@ def run_history(ops, out, stats, check_values=True, rng=None, n_ops=0):
     results = []
     mech = MechCorr()
     focus = (2 if rng.random() < 0.4 else None) if rng is not None else None
-    if rng is not None and not ops:
+    if rng is not None and not ops and gen is not None:
+        ops += S.clash_prefix(rng)
+    elif rng is not None and not ops:
         ops += [["set_mref", "u", 11], ["set_mref", "r", 12]] + S.motif(rng, cfg=CFG)
     try:
         k = 0
@@ -209,8 +212,7 @@ def run_history(ops, out, stats, check_values=True, rng=None, n_ops=0):
             if k >= len(ops):
                 if rng is None or k >= n_ops:
                     break
-                ok, nxt = S.observe(out, lambda: S.hist_json(ops), "when choosing the next operation", S.gen_next,
-                                    rng, live, CFG, ops, focus)
+                ok, nxt = S.observe(out, lambda: S.hist_json(ops), "when choosing the next operation", lambda: (gen or S.gen_next)(rng, live, CFG, ops, focus=focus))
                 if not ok:
                     broken = True
                     break
@@ -263,10 +265,14 @@ def run(ctx, out):
     stats = collections.Counter()
     n = ctx.n(60, 1200)
     nontrivial, seen, samples = 0, set(), []
-    cases = [(ops, None) for ops in S.load_corpus("C03")] + [([], ctx.rng("hist", i)) for i in range(n)]
-    for i, (ops, rng) in enumerate(cases):
+    # name-clash histories: the edits the mechanism model's name checks (and its disjointness invariant) are about
+    nc = ctx.n(16, 600)
+    cases = [(ops, None, None) for ops in S.load_corpus("C03")] + [([], ctx.rng("hist", i), None) for i in range(n)] \
+        + [([], ctx.rng("clash", i), S.gen_clash) for i in range(nc)]
+    for i, (ops, rng, gen) in enumerate(cases):
         sub = core.Outcome()
-        nt = run_history(ops, sub, stats, rng=rng, n_ops=(rng.randint(12, 26) if rng else 0))
+        stats["clash_histories"] += gen is not None
+        nt = run_history(ops, sub, stats, rng=rng, n_ops=(rng.randint(12, 30) if rng else 0), gen=gen)
         S.merge(out, sub)
         key = repr(ops)
         if key not in seen:
@@ -298,7 +304,10 @@ def run(ctx, out):
     S.enumerate_edits(ctx, out, "C03", _H, CFG, stats)
     out.coverage.update({"evaluations": len(cases) + stats["enumerated_scenarios"], "programs": len(seen),
                          "distinct_nontrivial": nontrivial,
-                         "rule": RULE + "; plus every motif program x applicable single edits (thorough: all) and pairs",
+                         "rule": RULE + "; plus name-clash histories (struct_props.gen_clash: one alphabet of four names "
+                                        "for cells, references, child spaces, model-level references and top-level spaces) "
+                                        "compared edit by edit with the mechanism model"
+                                        "; plus every motif program x applicable single edits (thorough: all) and pairs",
                          "samples": samples, "input_distribution": dict(stats),
                          "traces_validated_against_impl": len(cases)})
     out.assumptions.append("object-valued references (rebinding) are C10's subject and are not compared here")
